@@ -1146,7 +1146,7 @@ def run(ctx):
                 nontrivial.add(hash((tuple(map(tuple, sc.bursts)), tuple(sig))))
     ctx.coverage.update({
         "evaluations": len(bursts) + len(seqs), "distinct_nontrivial": len(nontrivial),
-        "rule": "seeded random scenarios: 2-4 users, 1-2 sessions each (+ optionally one session with a 2-slot send queue whose writer is stalled: slow-consumer eviction), 1-2 group/channel topics, a 'me' topic per user, optionally a p2p topic; BURST scenarios: 3-7 bursts in which ~70% of the sessions issue 1-3 requests each concurrently (sub/leave/unsub/pub/del-topic/del-user/disconnect) plus injected idle unloads, then a final burst re-subscribing to every group topic; CHANNEL scenarios (gen_chan_scn_c14c): one channel-enabled topic whose users are partly group subscribers (grpXXX) and partly readers (chnXXX), optionally a plain group topic, 1-2 sessions with a 2-slot send queue; requests carry the name form (as=grp|chn): attach under either name, {leave} / {leave unsub} under either name, slow-consumer phases (writers stalled, the owner publishes 3-4 messages, the third broadcast drops the session), disconnects, idle unloads, a final re-subscribe under both names; SEQUENTIAL scenarios: 6-18 single requests over group topics with and without channel functionality, {leave} under either name, a channel name for a plain group now and then (the model's alphabet), compared exactly with the extracted model (replies, Session.subs, Topic.sessions, isChanSub flags, loaded/stored, terminated); FAILED-DELETE scenarios (round s14d, gen_fault_scn_c14d; also in the sequential scenarios: 45% of the owners' {del topic}): the owner's {del what=topic} meets a failing store.Topics.Delete (request suffix fault=TopicDelete: memverif.SetHook arms the fault for exactly that adapter call) on a loaded topic with sessions attached or on an unloaded one, alone in its burst, followed by 2-4 bursts of leave / unsubscribe / subscribe / publish / disconnect of the members, a second failed delete, a successful delete, a final re-subscription; MANY-TOPICS scenarios (gen_many_scn_c14d): one session attached to 66-78 group topics of one owner, its writer stalled, then {del user} of the owner / all topics deleted at once / both / the user's other session unsubscribes from all of them (evictUser), then the writer resumes and the session asks for four of the topics again; non-trivial = at least one request accepted (200); distinct by (requests, replies); OBO scenarios (round s14f, c14f.gen_obo_scn_c14f): 2-3 regular users, all members of 1-2 group topics, plus a root user who is not a member, with 1-2 root sessions: 8-16 single requests: root {sub} with extra.obo=<member>, root {leave} with the same obo, members' own {sub}/{leave}, disconnects (mostly of root sessions), the owner's {del topic}; compared exactly with the extracted model (perUser.online of every user, perSessionData.uid of every attached session); REGISTRY scenarios: see round_s14f",
+        "rule": "seeded random scenarios: 2-4 users, 1-2 sessions each (+ optionally one session with a 2-slot send queue whose writer is stalled: slow-consumer eviction), 1-2 group/channel topics, a 'me' topic per user, optionally a p2p topic; BURST scenarios: 3-7 bursts in which ~70% of the sessions issue 1-3 requests each concurrently (sub/leave/unsub/pub/del-topic/del-user/disconnect) plus injected idle unloads, then a final burst re-subscribing to every group topic; CHANNEL scenarios (gen_chan_scn_c14c): one channel-enabled topic whose users are partly group subscribers (grpXXX) and partly readers (chnXXX), optionally a plain group topic, 1-2 sessions with a 2-slot send queue; requests carry the name form (as=grp|chn): attach under either name, {leave} / {leave unsub} under either name, slow-consumer phases (writers stalled, the owner publishes 3-4 messages, the third broadcast drops the session), disconnects, idle unloads, a final re-subscribe under both names; SEQUENTIAL scenarios: 6-18 single requests over group topics with and without channel functionality, {leave} under either name, a channel name for a plain group now and then (the model's alphabet), compared exactly with the extracted model (replies, Session.subs, Topic.sessions, isChanSub flags, loaded/stored, terminated); FAILED-DELETE scenarios (round s14d, gen_fault_scn_c14d; also in the sequential scenarios: 45% of the owners' {del topic}): the owner's {del what=topic} meets a failing store.Topics.Delete (request suffix fault=TopicDelete: memverif.SetHook arms the fault for exactly that adapter call) on a loaded topic with sessions attached or on an unloaded one, alone in its burst, followed by 2-4 bursts of leave / unsubscribe / subscribe / publish / disconnect of the members, a second failed delete, a successful delete, a final re-subscription; MANY-TOPICS scenarios (gen_many_scn_c14d): one session attached to 66-78 group topics of one owner, its writer stalled, then {del user} of the owner / all topics deleted at once / both / the user's other session unsubscribes from all of them (evictUser), then the writer resumes and the session asks for four of the topics again; non-trivial = at least one request accepted (200); distinct by (requests, replies); OBO scenarios (round s14f, c14f.gen_obo_scn_c14f): 2-3 regular users, all members of 1-2 group topics, plus a root user who is not a member, with 1-2 root sessions: 8-16 single requests: root {sub} with extra.obo=<member>, root {leave} with the same obo, members' own {sub}/{leave}, disconnects (mostly of root sessions), the owner's {del topic}; optional tail judged by the laws only: the acted-for member's {leave unsub} (evictUser) or a root session with a 2-slot queue dropped as a slow consumer; up to the tail compared exactly with the extracted model (perUser.online of every user, perSessionData.uid of every attached session); REGISTRY scenarios: see round_s14f",
         "round_s14f": cov14f, "obo_scenarios": len(obos),
         "burst_scenarios": len(bursts), "sequential_scenarios": len(seqs), "concurrent_bursts": conc, "requests_issued": nreq,
         "traces_validated_against_impl": compared, "correspondence_mismatches": len(mism),
